@@ -9,6 +9,7 @@ import (
 
 	"verifsim/kernel"
 	"verifsim/simrt"
+	"verifsim/simtask"
 	"verifsim/simsync"
 )
 
@@ -87,6 +88,15 @@ func (r *Response) statMax(k string, n int) {
 	}
 	if n > r.Stats[k] {
 		r.Stats[k] = n
+	}
+}
+
+func init() {
+	// channel operations of instrumented parsers that cannot proceed hand over
+	// to another client of the simulated scheduler
+	simtask.ExternalYield = func() {
+		simrt.Charge(25)
+		simrt.SwitchAway()
 	}
 }
 
